@@ -174,6 +174,12 @@ class Machine(object):
         return cfg, ops
 
     @classmethod
+    def history_key(cls, cfg, ops):
+        """What makes two histories distinct for the evidence count (conservative
+        default: configuration kind + sequence of operation kinds)."""
+        return (cfg.get("kind"), [o["op"] for o in ops])
+
+    @classmethod
     def exhaustive(cls, tier):
         """Optional finite sub-space, enumerated deterministically."""
         return iter(())
